@@ -278,6 +278,13 @@ def instr_xml(i):
         return s + "</xsl:choose>"
     if k == "when":
         return "<xsl:when%s>%s</xsl:when>" % (sel_attr("test", i["test"]), body_xml(i["body"]))
+    if k == "applyimports":
+        return "<xsl:apply-imports/>"
+    if k == "number":
+        if i["value"] is not None:
+            return '<xsl:number value="%s" format="%s"/>' % (xml_attr(expr_txt(i["value"])), xml_attr(i["format"]))
+        cnt = ' count="%s"' % xml_attr(" | ".join(pattern_txt(p) for p in i["count"])) if i.get("count") else ""
+        return '<xsl:number level="%s"%s format="%s"/>' % (i.get("level", "single"), cnt, xml_attr(i["format"]))
     if k == "variable":
         return varlike_xml("variable", i)
     if k == "param":
@@ -326,6 +333,11 @@ def instr_tok(i):
         return varlike_tok(k, i)
     if k == "usesets":
         return "( usesets %s )" % " ".join(enc(n) for n in i["names"])
+    if k == "applyimports":
+        return "( applyimports )"
+    if k == "number":
+        return "( number %s %s ( %s ) %s )" % ("none" if i["value"] is None else expr_tok(i["value"]), i.get("level", "single"),
+                                               " ".join(expr_tok(p) for p in i.get("count", [])), enc(i["format"]))
     raise ValueError(k)
 
 
@@ -336,6 +348,14 @@ def attrset_xml(a):
 
 def attrset_tok(a):
     return "( attrset %s ( %s ) %s )" % (enc(a["name"]), " ".join(enc(u) for u in a["uses"]), body_tok(a["body"]))
+
+
+def key_xml(k):
+    return '<xsl:key name="%s" match="%s" use="%s"/>' % (k["name"], xml_attr(" | ".join(pattern_txt(p) for p in k["pats"])), xml_attr(expr_txt(k["use"])))
+
+
+def key_tok(k):
+    return "( key %s ( %s ) %s )" % (enc(k["name"]), " ".join(expr_tok(p) for p in k["pats"]), expr_tok(k["use"]))
 
 
 def template_xml(t):
@@ -353,30 +373,50 @@ def template_xml(t):
 
 
 def template_tok(t):
-    return "( template ( %s ) %s %s %s %s )" % (" ".join(expr_tok(p) for p in t["pats"]),
-                                                 "none" if t["name"] is None else enc(t["name"]),
-                                                 "none" if t["mode"] is None else enc(t["mode"]),
-                                                 "none" if t["prio"] is None else str(t["prio"]),
-                                                 body_tok(t["body"]))
+    return "( template ( %s ) %s %s %s %d %s )" % (" ".join(expr_tok(p) for p in t["pats"]),
+                                                    "none" if t["name"] is None else enc(t["name"]),
+                                                    "none" if t["mode"] is None else enc(t["mode"]),
+                                                    "none" if t["prio"] is None else str(t["prio"]),
+                                                    t.get("prec", 0), body_tok(t["body"]))
+
+
+XSL_OPEN = '<xsl:stylesheet xmlns:xsl="http://www.w3.org/1999/XSL/Transform" version="1.0">'
+
+
+def stylesheet_modules(ss):
+    """[main, i1.xsl, i2.xsl, …]: the main module imports i1, i1 imports i2, …; a template of import precedence p lives
+    in module (nmods - p) (main has the highest precedence)"""
+    m = ss.get("imports", 0)
+    mods = []
+    for j in range(m + 1):
+        out = XSL_OPEN
+        if j < m:
+            out += '<xsl:import href="i%d.xsl"/>' % (j + 1)
+        if j == 0:
+            out += ('<xsl:strip-space elements="%s"/>' % " ".join(ss["strip"]) if ss.get("strip") else "")
+            out += "".join(key_xml(k) for k in ss.get("keys", []))
+            out += "".join(varlike_xml(g["k"], g) for g in ss["globals"])
+            out += "".join(attrset_xml(a) for a in ss.get("attrsets", []))
+        out += "".join(template_xml(t) for t in ss["templates"] if t.get("prec", m) == m - j)
+        mods.append(out + "</xsl:stylesheet>")
+    return mods
 
 
 def stylesheet_xml(ss):
-    return ('<xsl:stylesheet xmlns:xsl="http://www.w3.org/1999/XSL/Transform" version="1.0">'
-            + "".join(varlike_xml(g["k"], g) for g in ss["globals"])
-            + "".join(attrset_xml(a) for a in ss.get("attrsets", []))
-            + "".join(template_xml(t) for t in ss["templates"]) + "</xsl:stylesheet>")
+    return " || ".join(stylesheet_modules(ss))
 
 
 def stylesheet_tok(ss):
-    return "( stylesheet ( %s ) ( %s ) ( %s ) )" % (" ".join(varlike_tok(g["k"], g) for g in ss["globals"]),
-                                                    " ".join(template_tok(t) for t in ss["templates"]),
-                                                    " ".join(attrset_tok(a) for a in ss.get("attrsets", [])))
+    return "( stylesheet ( %s ) ( %s ) ( %s ) ( %s ) ( %s ) )" % (" ".join(varlike_tok(g["k"], g) for g in ss["globals"]),
+                                                                  " ".join(template_tok(t) for t in ss["templates"]),
+                                                                  " ".join(attrset_tok(a) for a in ss.get("attrsets", [])),
+                                                                  " ".join(key_tok(k) for k in ss.get("keys", [])),
+                                                                  " ".join(enc(x) for x in ss.get("strip", [])))
 
 
-def request_line(cid, ss, doc_top):
-    xsl = stylesheet_xml(ss)
+def request_line(cid, ss, doc_top, verb="xslt"):
     xml = "".join(doc_xml(t) for t in doc_top)
-    return "xslt %s %s %s D %s %s" % (cid, xsl.encode("ascii").hex(), xml.encode("ascii").hex(),
+    return "%s %s %s %s D %s %s" % (verb, cid, ",".join(m.encode("ascii").hex() for m in stylesheet_modules(ss)), xml.encode("ascii").hex(),
                                        doc_tokens(doc_top), stylesheet_tok(ss))
 
 
@@ -387,20 +427,24 @@ ROOT_REACHING = ("ancestor", "ancestor-or-self", "parent", "self", "descendant-o
 ENAMES = ["a", "b", "c", "d"]
 ANAMES = ["x", "y", "n"]
 VALUES = ["1", "2", "3", "10", "7", "0", "-4", "ab", "b", "abc", "a c", " 7 ", "x1", "12"]
+TEXTS = VALUES + [" ", "  ", " \n"]          # text nodes may be whitespace only (xsl:strip-space)
 LITS = ["a", "b", "ab", "1", "x1", "", " ", "7", "abc", "-"]
 OUTNAMES = ["out", "p", "q", "item", "e1", "w"]
 
 
 class Gen:
-    def __init__(self, r, size=2):
+    def __init__(self, r, size=2, fragment=False):
         self.r = r
         self.size = size          # 1 small, 2 medium, 3 large
+        self.fragment = fragment  # only the instruction kinds of the Core fragment (lean/XalanModel/C01/Core.lean)
         self.modes = []
         self.named = []           # names of named templates, in stylesheet order of "call level"
         self.named_params = {}
         self.varctr = 0
         self.features = set()
         self.sets = []
+        self.keys = []
+        self.imports = 0
         self.nopos = False        # inside top-level variable selects: no position()/last() (evaluated lazily by the processor)
 
     # ---- documents
@@ -425,7 +469,7 @@ class Gen:
                 if c == "T":
                     if last_text:
                         continue
-                    kids.append(("T", r.choice(VALUES)))
+                    kids.append(("T", r.choice(TEXTS)))
                     last_text = True
                     budget[0] -= 1
                     continue
@@ -455,7 +499,7 @@ class Gen:
         r = self.r
         if attr:
             return r.weighted([(("name", r.choice(ANAMES)), 4), ("star", 1)])
-        if ax in ROOT_REACHING:
+        if False and ax in ROOT_REACHING:
             # element tests only: a node-set in which the document node is merged with other nodes is
             # mis-ordered / not de-duplicated by the processor (C12's subject; recorded corpus cases)
             return r.weighted([(("name", r.choice(ENAMES + ["r"])), 5), ("star", 4)])
@@ -490,9 +534,13 @@ class Gen:
 
     def gen_ns(self, env, depth):
         r = self.r
-        c = r.weighted([("down", 8), ("any", 4), ("abs", 2), ("var", 3), ("union", 1), ("filt", 1), ("self", 1)])
+        c = r.weighted([("down", 8), ("any", 4), ("abs", 2), ("var", 3), ("union", 1), ("filt", 1), ("self", 1),
+                        ("key", 2 if self.keys else 0)])
         if depth <= 0:
             c = "down"
+        if c == "key":
+            v = r.weighted([(("lit", r.choice(VALUES)), 4), (self.gen_str(env, depth - 1), 2), (self.down_path(env, depth - 1), 2)])
+            return ("fn", "key", [("lit", r.choice(self.keys)), v])
         if c == "down":
             return self.down_path(env, depth)
         if c == "self":
@@ -659,7 +707,7 @@ class Gen:
 
     def sorts(self, env):
         r = self.r
-        if not r.chance(1, 3):
+        if self.fragment or not r.chance(1, 3):
             return []
         res = []
         for _ in range(r.weighted([(1, 4), (2, 1)])):
@@ -674,6 +722,8 @@ class Gen:
     def with_params(self, env, depth, names):
         r = self.r
         res = []
+        if self.fragment:
+            return res
         for n in names:
             if r.chance(1, 2):
                 if r.chance(1, 4) and depth > 0:
@@ -718,6 +768,8 @@ class Gen:
         env = list(env)
         res = []
         n = r.range(1, 2 + self.size) if depth > 0 else r.range(1, 2)
+        if self.fragment:
+            in_elem = False
         if in_elem and sets_ok and self.sets and r.chance(1, 6):
             res.append({"k": "usesets", "names": r.shuffle(self.sets)[: r.range(1, len(self.sets))]})
             self.features.add("use-attribute-sets")
@@ -735,9 +787,30 @@ class Gen:
         w = [("text", 5), ("valueof", 7), ("lre", 5 if depth > 0 else 0), ("element", 2 if depth > 0 else 0),
              ("copy", 2 if depth > 0 else 0), ("copyof", 3), ("apply", 6), ("call", 3 if self.callable(tctx) else 0),
              ("foreach", 4 if depth > 0 else 0), ("if", 3 if depth > 0 else 0), ("choose", 2 if depth > 0 else 0),
-             ("variable", 4), ("comment", 1), ("pi", 1), ("xtext", 1)]
+             ("variable", 4), ("comment", 1), ("pi", 1), ("xtext", 1), ("number", 2)]
+        if self.imports and tctx.get("rule") and not tctx.get("fe"):
+            w.append(("applyimports", 3))
+        if self.fragment:
+            w = [(k, x) for k, x in w if k in ("text", "valueof", "lre", "apply", "call", "foreach", "if", "choose", "xtext")]
         k = r.weighted(w)
         self.features.add(k)
+        if k == "applyimports":
+            return [{"k": "applyimports"}]
+        if k == "number":
+            v = r.weighted([(("fn", "position", []), 3), (("bin", "+", ("fn", "count", [self.down_path(env, 1)]), ("num", 1)), 3),
+                            (("num", r.range(1, 60)), 3), (("bin", "+", ("fn", "string-length", []), ("num", 1)), 1),
+                            (("bin", "*", ("fn", "last", []), ("num", r.range(1, 30))), 1)])
+            fmt = r.choice(["1", "01", "a", "A", "i", "I", "1.", "(a)", "001", "[I]"])
+            if r.chance(1, 2):
+                return [{"k": "number", "value": v, "format": fmt}]
+            count = []
+            if r.chance(1, 2):
+                ctx = ("ctx",)
+                count = [r.choice([("step", ctx, "child", ("name", r.choice(ENAMES)), []), ("step", ctx, "child", "star", []),
+                                   ("step", ctx, "child", "text", []), ("step", ctx, "child", "node", []),
+                                   ("step", ("step", ctx, "child", ("name", r.choice(ENAMES + ["r"])), []), "child", "star", [])])
+                         for _ in range(r.range(1, 2))]
+            return [{"k": "number", "value": None, "level": r.choice(["single", "single", "multiple", "any"]), "count": count, "format": fmt}]
         if k == "text":
             return [{"k": "text", "s": r.choice(["t", "ab", "x ", " y", "1", "-", "a b"])}]
         if k == "xtext":
@@ -747,7 +820,7 @@ class Gen:
             return [{"k": "valueof", "e": e}]
         if k == "lre":
             attrs = []
-            for an in r.shuffle(["id", "k", "z"])[: r.weighted([(0, 4), (1, 3), (2, 1)])]:
+            for an in r.shuffle(["id", "k", "z"])[: 0 if self.fragment else r.weighted([(0, 4), (1, 3), (2, 1)])]:
                 parts = []
                 for _ in range(r.range(1, 2)):
                     parts.append(("l", r.choice(["v", "a", "1 ", ""])) if r.chance(1, 2) else ("e", r.choice([self.gen_str, self.gen_num])(env, 1)))
@@ -761,15 +834,13 @@ class Gen:
         if k == "copy":
             # no use-attribute-sets on xsl:copy: when the current node is not an element the processor runs the
             # sets after the content and the content a second time (tagged corpus case copy-usesets-on-root)
-            return [{"k": "copy", "body": self.gen_body(env, depth - 1, tctx, in_elem=True, sets_ok=False)}]
+            return [{"k": "copy", "body": self.gen_body(env, depth - 1, tctx, in_elem=True)}]
         if k == "copyof":
             c = r.weighted([("ns", 6), ("var", 3), ("str", 1)])
             if c == "var" and env:
                 return [{"k": "copyof", "e": ("var", r.choice(env)[0])}]
             if c == "str":
-                e = self.gen_str(env, 1)
-                # an empty string here closes the pending start tag in the processor (known finding); keep it non-empty
-                return [{"k": "copyof", "e": ("fn", "concat", [("lit", "s"), e])}]
+                return [{"k": "copyof", "e": self.gen_str(env, 1)}]
             return [{"k": "copyof", "e": self.gen_ns(env, 2)}]
         if k == "apply":
             sel = None if r.chance(1, 3) else self.down_path(env, 1)
@@ -782,7 +853,10 @@ class Gen:
         if k == "foreach":
             vs = [v for v, t in env if t == "nsdown"]
             sel = ("var", r.choice(vs)) if vs and r.chance(1, 4) else self.down_path(env, 1)
-            return [{"k": "foreach", "select": sel, "sorts": self.sorts(env), "body": self.gen_body(env, depth - 1, tctx)}]
+            tctx["fe"] = tctx.get("fe", 0) + 1      # no current template rule inside xsl:for-each (no xsl:apply-imports)
+            body = self.gen_body(env, depth - 1, tctx)
+            tctx["fe"] -= 1
+            return [{"k": "foreach", "select": sel, "sorts": self.sorts(env), "body": body}]
         if k == "if":
             return [{"k": "if", "test": self.gen_bool(env, 2), "body": self.gen_body(env, depth - 1, tctx)}]
         if k == "choose":
@@ -871,13 +945,14 @@ class Gen:
     def gen_stylesheet(self):
         r = self.r
         self.varctr = 0
+        self.imports = 0 if self.fragment or not r.chance(1, 4) else r.range(1, 2)
         self.modes = ["m1"] if r.chance(1, 3) else []
         nnamed = r.weighted([(0, 3), (1, 3), (2, 2)])
         self.named = ["t%d" % i for i in range(nnamed)]
         genv = []
         globs = []
         self.nopos = True
-        for gi in range(r.weighted([(0, 3), (1, 2), (2, 1)])):
+        for gi in range(0 if self.fragment else r.weighted([(0, 3), (1, 2), (2, 1)])):
             name = "g%d" % gi
             if r.chance(1, 4):
                 body = self.text_body(genv, 0) or [{"k": "text", "s": "G"}]
@@ -887,14 +962,23 @@ class Gen:
                 e, t = self.gen_value(genv, 2)
                 globs.append({"k": r.weighted([("variable", 4), ("param", 1)]), "name": name, "select": e, "body": []})
                 genv.append((name, "ns" if t == "nsdown" else t))
-        if r.chance(1, 5):
+        if not self.fragment and r.chance(1, 5):
             e, t = self.gen_value(genv, 1)
             globs.append({"k": "variable", "name": "p0", "select": e, "body": []})
             genv.append(("p0", "ns" if t == "nsdown" else t))
+        # keys
+        keys = []
+        self.keys = []
+        if not self.fragment and r.chance(1, 3):
+            use = r.choice([("step", ("ctx",), "attribute", ("name", r.choice(ANAMES)), []), ("ctx",), ("fn", "name", []),
+                            ("step", ("ctx",), "child", "star", []), ("fn", "string-length", [])])
+            pats = [p for p in [self.gen_pattern() for _ in range(r.range(1, 2))]]
+            keys.append({"name": "k0", "pats": pats, "use": use})
+            self.keys = ["k0"]
         # attribute sets (only top-level variables are visible inside them)
         attrsets = []
         self.sets = []
-        for si in range(r.weighted([(0, 3), (1, 2), (2, 1)])):
+        for si in range(0 if self.fragment else r.weighted([(0, 3), (1, 2), (2, 1)])):
             name = "s%d" % si
             body = []
             for _ in range(r.range(1, 2)):
@@ -908,27 +992,36 @@ class Gen:
         templates = []
         # root rule most of the time
         if r.chance(4, 5):
-            tctx = {}
+            tctx = {"rule": True}
             body = [{"k": "lre", "name": "out", "attrs": [], "body": self.gen_body(genv, depth, tctx, in_elem=True)}] if r.chance(4, 5) else self.gen_body(genv, depth, tctx)
             templates.append({"pats": [("root",)], "name": None, "mode": None, "prio": None, "body": body})
-        for _ in range(r.range(1, 2 + self.size)):
-            tctx = {}
+        for _ in range(r.range(1, 2 + self.size) + self.imports):
+            tctx = {"rule": True}
             pats = [self.gen_pattern() for _ in range(r.weighted([(1, 5), (2, 1)]))]
             mode = r.choice(self.modes) if self.modes and r.chance(1, 2) else None
             # a union pattern gets an explicit priority: the processor gives every alternative the best
             # alternative's default priority (C10's subject), the Recommendation each its own
             prio = r.choice([-2, -1, 0, 1, 2, 3, 4]) if (r.chance(1, 4) or len(pats) > 1) else None
-            params = [p for p in ["p0", "p1"] if r.chance(1, 3)]
+            params = [p for p in ["p0", "p1"] if r.chance(1, 3) and not self.fragment]
             templates.append({"pats": pats, "name": None, "mode": mode, "prio": prio,
                               "body": self.gen_template_body(genv, depth - 1, tctx, params)})
         for idx, name in enumerate(self.named):
             tctx = {"named_level": idx}
-            params = [p for p in ["p0", "p1"] if r.chance(1, 2)]
+            params = [p for p in ["p0", "p1"] if r.chance(1, 2) and not self.fragment]
             pats = [self.gen_pattern()] if r.chance(1, 5) else []
             templates.append({"pats": pats, "name": name, "mode": None, "prio": None,
                               "body": self.gen_template_body(genv, depth - 1, tctx, params)})
         templates = r.shuffle(templates)
-        return {"globals": globs, "templates": templates, "attrsets": attrsets}
+        for t in templates:
+            # named templates stay in the main module; rules are spread over the import chain
+            t["prec"] = self.imports if (t["name"] is not None or not self.imports) else r.range(0, self.imports)
+        strip = []
+        if not self.fragment and r.chance(1, 4):
+            strip = ["*"] if r.chance(1, 3) else r.shuffle(ENAMES + ["r"])[: r.range(1, 3)]
+        # Spec order = document order of the import tree: imported modules first
+        templates = sorted(templates, key=lambda t: t["prec"])
+        return {"globals": globs, "templates": templates, "attrsets": attrsets, "keys": keys, "strip": strip,
+                "imports": self.imports}
 
 
 def instr_kinds(ss):
